@@ -1,26 +1,44 @@
 package main
 
-import (
-	"fmt"
+import "fmt"
 
-	"verif.local/simrt"
-)
-
-// tracingOn is set per run; descriptions are only formatted when tracing.
-var tracingOn bool
-
-// spA formats always. fmt uses a sync.Pool internally; inside a task that
-// would add happens-before edges between tasks which the program under test
-// did not create, so formatting runs with synchronisation events ignored.
-func spA(format string, args ...any) (s string) {
-	simrt.NoSync(func() { s = fmt.Sprintf(format, args...) })
-	return s
+// Violation is what an oracle reports. Inside a task nothing may be formatted
+// (fmt keeps shared state behind a sync.Pool: calling it from tasks would
+// either add happens-before edges between them or show up as races inside
+// fmt), so the detail is kept as format+args and rendered after the run.
+type Violation struct {
+	Class  string `json:"class"`
+	Detail string `json:"detail"`
+	format string
+	args   []any
+	pre    *Violation
 }
 
-// sp formats only when tracing.
-func sp(format string, args ...any) string {
-	if !tracingOn {
-		return ""
+// violf builds a violation without formatting anything. Arguments must be
+// plain values (no pointers into state that keeps changing).
+func violf(class, format string, args ...any) *Violation {
+	return &Violation{Class: class, format: format, args: args}
+}
+
+// prefixed returns v with a lazily formatted prefix in front of its detail.
+func (v *Violation) prefixed(format string, args ...any) *Violation {
+	return &Violation{Class: v.Class, format: format, args: args, pre: v}
+}
+
+// render formats the detail; main goroutine only, after the tasks have joined.
+func (v *Violation) render() *Violation {
+	if v == nil {
+		return nil
 	}
-	return spA(format, args...)
+	if v.format != "" {
+		d := fmt.Sprintf(v.format, v.args...)
+		if v.pre != nil {
+			d += v.pre.render().Detail
+		}
+		v.Detail, v.format = d+v.Detail, ""
+	}
+	return v
 }
+
+// spA formats now; main goroutine only.
+func spA(format string, args ...any) string { return fmt.Sprintf(format, args...) }
